@@ -165,6 +165,12 @@ def _run_impl(case):
         while True:
             ev = cv.reserve_get()
             yield ev
+            if case.get("hold"):
+                # a destination that claims the item and takes it later (the Splitter does: it reserves the pallet, then
+                # waits for its worker slot)
+                h = case["hold"][n % len(case["hold"])]
+                if h:
+                    yield env.timeout(h)
             cv.get(ev)
             s = services[n % len(services)]; n += 1
             if s:
@@ -414,6 +420,9 @@ def gen_case(rng, nprod=None, kind=None):
     else:
         case["services"] = [rng.choice([0, 0, 0, 1, 2, 5, 0.5, 0.25]) for _ in range(rng.randrange(1, 5))]
         case["first_get"] = rng.choice([0, 0, 3, 7, 2.5])
+    if rng.random() < 0.3:
+        # the destination claims the item at the exit and takes it only later
+        case["hold"] = [rng.choice([0, u, 2 * u, 3 * u, 5]) for _ in range(rng.randrange(1, 4))]
     case["T"] = 80
     return case
 
